@@ -217,8 +217,12 @@ VARIANTS = {
     # name: (cargo args, binary path relative to harness)
     'release': (['cargo', 'build', '--release'], 'target/release/avdrive'),
     'dev': (['cargo', 'build'], 'target/debug/avdrive'),
-    'std': (['cargo', 'build', '--release', '--no-default-features', '--features', 'std,rayon',
+    'std': (['cargo', 'build', '--release', '--no-default-features', '--features', 'std,rayon,serde',
              '--target-dir', 'target/std'], 'target/std/release/avdrive'),
+    # the configuration the crate's own test suite runs in: default features only (libm), i.e. WITHOUT serde and rayon, so
+    # that the #[cfg(not(feature = "serde"))] variants of define_moments! / define_histogram! are the ones exercised
+    'plain': (['cargo', 'build', '--release', '--no-default-features', '--features', 'libm',
+               '--target-dir', 'target/plain'], 'target/plain/release/avdrive'),
     'nightly': (['cargo', '+nightly', 'build', '--release', '--features', 'nightly',
                  '--target-dir', 'target/nightly'], 'target/nightly/release/avdrive'),
     # ThreadSanitizer build (std rebuilt with the sanitizer, otherwise "ABI mismatch"); used by the thorough tier of C19
@@ -304,7 +308,7 @@ def run_miri(case_text, seeds=None, timeout=3600, tag='miri'):
         flags += ' -Zmiri-many-seeds=%d..%d' % (seeds[0], seeds[1])
     env['MIRIFLAGS'] = flags
     # std instead of libm: libm's x86 sqrt is inline assembly, which Miri cannot interpret
-    args = ['cargo', '+nightly', 'miri', 'run', '--no-default-features', '--features', 'std,rayon',
+    args = ['cargo', '+nightly', 'miri', 'run', '--no-default-features', '--features', 'std,rayon,serde',
             '--target-dir', 'target/miri', '--', path]
     try:
         r = subprocess.run(args, cwd=HARNESS, env=env, capture_output=True, text=True, timeout=timeout)
